@@ -105,7 +105,7 @@ def make_default(r, typ, dkind):
     table = {
         "int": {"int": [5, 42, 7, 1], "negint": [-3, -100, -1], "zero": [0]},
         "float": {"float": [0.5, 3.25, 2.0], "negfloat": [-1.5, -0.001], "smallfloat": [1e-07]},
-        "str": {"str": ["hello", "mnist", "a_b"], "strspace": ["x y"], "strtilde": ["~/dir"], "strdot": ["a.b"],
+        "str": {"str": ["hello", "mnist", "a_b", "r", ",", "ab", "0", "\u00e9"], "strspace": ["x y"], "strtilde": ["~/dir"], "strdot": ["a.b"],
                 "emptystr": [""]},
         "bool": {"bool": [True, False]},
     }
